@@ -21,6 +21,8 @@ import Restful.Lemmas.StateShape
 import Restful.Lemmas.TieOrder
 import Restful.Lemmas.RouteUnique
 import Restful.Lemmas.Classify
+import Restful.Lemmas.TieImpScore
+import Restful.Lemmas.TieImpMatch
 namespace Restful
 namespace Props
 variable (E : ReEnv)
@@ -586,3 +588,8 @@ theorem C03_ids_witness :
 
 end Props
 end Restful
+
+-- the imperative functions this property's model rests on, tied to their statement-by-statement
+-- translation (tools/goimp, Gen/Imp.lean, regenerated on every run):
+-- also: Restful.TieImp.T2.webservice_score
+-- also: Restful.TieImp.match_tokens
